@@ -86,3 +86,16 @@ def register(claim, na):
         "symbolic execution of evolution.py with a symbolic time + z3 QF_NRA over the circle; Fourier-form differentiation for the derivative clause",
         "DESIGN.md §1 E1, §2 C16",
     )
+    claim(
+        "C05", "model_checking",
+        "Every instance circuit (each built-in gate, custom gates with symbolic matrices incl. under wrappers, wrapper nestings to depth 2-3, "
+        "parameters of eleven expression shapes over nine families of symbol names incl. indexed names and names living in sympy's namespace, "
+        "numbers, empty circuits, idle qubits, circuit sets, two circuits sharing a custom gate name) is pushed through dict, real JSON text, "
+        "StringIO and a real file; structure (width, wrapper chain, control counts, exponents, qubits, parameters, free symbols, custom "
+        "definitions, ==) is compared concretely and 'same matrix for every assignment of its symbols' is the identity U_orig(theta)=U_deser(theta) "
+        "decided by z3 for all symbol values.",
+        "Trusted: sympy, translator (Fourier cross-check + replay), z3. Number literals go through str(float)/sympify concretely: exactness of "
+        "Python numbers is a ground comparison. Known finding F5 (x together with x[0] in one gate).",
+        "concrete round trip through real JSON + z3 QF_NRA identity of the original and deserialised circuit matrices over all symbol values",
+        "DESIGN.md §1 E1, §2 C05",
+    )
